@@ -70,6 +70,31 @@ def run(ctx):
     for p in ('start_chan', 'num_subblocks', 'antenna_source'):
         ctx.formula('AGREE', f'the new backend receives the caller\'s {p}', fd, b.get(p, NONE), sym(p), node=init[0].node,
                     construct=f'cls({p}=...)')
+    # "the output has the input's ... polarisation/antenna counts": these two counts come from the antenna source, so a
+    # source that disagrees with the recording must be rejected (the bytes would otherwise be silently reinterpreted)
+    rets = [e for e in I.events if e.kind == 'return' and e.func.short == fd.short]
+    ctx.require(rets, 'from_data no longer returns the backend')
+
+    def conj(c):
+        a = c.single_atom()
+        return [x for y in a.args for x in conj(y)] if (a is not None and a.kind == 'and') else [c]
+    conds = [x for c in rets[-1].pc for x in conj(c)]
+    for cnt in ('num_pols', 'num_antennas'):
+        want_in = T.mk_sub(RP, lift(cnt))
+
+        def is_eq(c):
+            a = c.single_atom()
+            if a is None or a.kind != 'cmp' or a.args[0] != '==':
+                return False
+            # canonical form: (X - RP[cnt]) == 0
+            d = a.args[1] - a.args[2]
+            ats = T.all_atoms(d)
+            has_in = any(x.key == want_in.single_atom().key for x in ats.values())
+            has_src = any(x.kind == 'attr' and x.args[1] == cnt for x in ats.values())
+            return has_in and has_src
+        ctx.ob('GUARDDOM', f'from_data returns a backend only if the antenna source\'s {cnt} equals the input recording\'s', fd,
+               any(is_eq(c) for c in conds), {'path_condition_of_return': [pretty(c)[:140] for c in conds]}, node=rets[-1].node,
+               construct=f'from_data: {cnt} of the source vs the input')
     nb_st = [e for e in I.events if e.kind == 'store' and e.data.get('name') == 'num_bits' and e.func.short == fd.short]
     objs = sorted({ast.unparse(e.data['base_node']) for e in nb_st})
     ctx.ob('AGREE', 'the complex requantiser and both of its component quantisers get the input bit depth', fd,
